@@ -34,6 +34,7 @@ import (
 	"github.com/fatedier/frp/pkg/transport"
 	netpkg "github.com/fatedier/frp/pkg/util/net"
 	"github.com/fatedier/frp/pkg/util/util"
+	"github.com/fatedier/frp/pkg/util/verifhook"
 	"github.com/fatedier/frp/pkg/util/version"
 	"github.com/fatedier/frp/pkg/util/wait"
 	"github.com/fatedier/frp/pkg/util/xlog"
@@ -323,6 +324,7 @@ func (ctl *Control) worker() {
 	go ctl.msgDispatcher.Run()
 
 	<-ctl.msgDispatcher.Done()
+	verifhook.At("worker.dispDone", ctl.loginMsg.RunID, ctl.loginMsg.Hostname)
 	ctl.conn.Close()
 
 	ctl.mu.Lock()
@@ -333,7 +335,9 @@ func (ctl *Control) worker() {
 		workConn.Close()
 	}
 
+	verifhook.At("worker.drained", ctl.loginMsg.RunID, ctl.loginMsg.Hostname)
 	for _, pxy := range ctl.proxies {
+		verifhook.At("worker.proxy", ctl.loginMsg.RunID, ctl.loginMsg.Hostname, pxy.GetName())
 		pxy.Close()
 		ctl.pxyManager.Del(pxy.GetName())
 		metrics.Server.CloseProxy(pxy.GetName(), pxy.GetConfigurer().GetBaseConfig().Type)
@@ -355,6 +359,7 @@ func (ctl *Control) worker() {
 
 	metrics.Server.CloseClient()
 	xl.Infof("client exit success")
+	verifhook.At("worker.beforeDone", ctl.loginMsg.RunID, ctl.loginMsg.Hostname)
 	close(ctl.doneCh)
 }
 
@@ -508,6 +513,7 @@ func (ctl *Control) RegisterProxy(pxyMsg *msg.NewProxy) (remoteAddr string, err 
 		return
 	}
 
+	verifhook.At("reg.checked", ctl.loginMsg.RunID, ctl.loginMsg.Hostname, pxyMsg.ProxyName)
 	remoteAddr, err = pxy.Run()
 	if err != nil {
 		return
@@ -518,11 +524,13 @@ func (ctl *Control) RegisterProxy(pxyMsg *msg.NewProxy) (remoteAddr string, err 
 		}
 	}()
 
+	verifhook.At("reg.ran", ctl.loginMsg.RunID, ctl.loginMsg.Hostname, pxyMsg.ProxyName)
 	err = ctl.pxyManager.Add(pxyMsg.ProxyName, pxy)
 	if err != nil {
 		return
 	}
 
+	verifhook.At("reg.added", ctl.loginMsg.RunID, ctl.loginMsg.Hostname, pxyMsg.ProxyName)
 	ctl.mu.Lock()
 	ctl.proxies[pxy.GetName()] = pxy
 	ctl.mu.Unlock()
@@ -542,6 +550,7 @@ func (ctl *Control) CloseProxy(closeMsg *msg.CloseProxy) (err error) {
 	}
 	pxy.Close()
 	ctl.pxyManager.Del(pxy.GetName())
+	verifhook.At("close.deleted", ctl.loginMsg.RunID, ctl.loginMsg.Hostname, closeMsg.ProxyName)
 	delete(ctl.proxies, closeMsg.ProxyName)
 	ctl.mu.Unlock()
 
